@@ -81,7 +81,7 @@ def theorem_names(module):
             stack.pop()
             continue
         m = re.match(r"^\s*(?:@\[[^\]]*\]\s*)?(?:protected\s+|private\s+)?theorem\s+([A-Za-z_][\w'.]*)", line)
-        if m and re.match(r"^(C\d\d|fact|trans)_", m.group(1).split(".")[-1]):
+        if m and re.match(r"^(C\d\d|fact|trans\d*)_", m.group(1).split(".")[-1]):
             names.append(".".join(stack + [m.group(1)]))
     return names
 
